@@ -174,6 +174,10 @@ def concrete_playback(config, harness_id):
     cmd = kani_cmd(config, tdir) + ['-Z', 'concrete-playback', '--concrete-playback=print', '--output-format', 'terse',
                                     '--harness', harness_id, '--exact', '--harness-timeout', '30m']
     rc, out, dt = sh(cmd, cwd=HARNESS, timeout=3600)
+    try:
+        open(os.path.join(BUILD, 'playback-%s.log' % harness_id.split('::')[-1]), 'w').write(out)
+    except Exception:
+        pass
     vals = {}
     cur = None
     for line in out.split('\n'):
@@ -363,6 +367,21 @@ def check(prop, tier):
             broken += rb.get('broken', [])
             undecided += rb.get('undecided', [])
             r = mir2c_run.run(prop, tier, e2, log, baseline=rb['failing'])
+            # the same case space on the real crate, natively, in both builds: every printed line must coincide
+            nd, err = mir2c_run.native_differential(prop, tier, log)
+            if nd is None:
+                broken.append('native differential: ' + err)
+            else:
+                diffs, total = nd
+                r['part']['native_differential'] = '%d cases run natively in the default and the unstable build, %d differing lines' % (total, len(diffs))
+                r['part']['traces_validated_against_impl'] = r['part'].get('traces_validated_against_impl', 0) + total
+                if diffs:
+                    n0, a, b = diffs[0]
+                    m = re.match(r'^(\S+) N=(\d+) M=(\d+) start=(\d+) size=(\d+) a=(\d+) b=(\d+) start2=(\d+) size2=(\d+) fault=(\d+)@(\d+)', a)
+                    case = dict(zip(('op', 'N', 'M', 'start', 'size', 'a', 'b', 'start2', 'size2', 'kind', 'at'), m.groups())) if m else {}
+                    path = save_replay(prop, 'native_differential', dict(engine='E2', differential=True, property=prop, case=case, default_build=a, unstable_build=b,
+                                                                          differing_lines=len(diffs)))
+                    r.setdefault('violations', []).append(dict(path=path, harness='native default vs unstable', check='the two builds behave differently: %s' % a[:140], role='%s/differs' % case.get('op')))
             if r['failing'] != rb['failing'] and not r.get('violations') and (rb['failing'] - r['failing']):
                 broken.append('E2 differential: the baseline configuration fails checks that the other does not: %s' % sorted(rb['failing'] - r['failing'])[:3])
         else:
